@@ -15,14 +15,14 @@ S = "suit_generator/"
 M = [
     # (property, name, file, old, new)
     ("C01", "shake128-32-bytes", S + "suit/security.py", '"cose-alg-shake128": hashes.SHAKE128(16),', '"cose-alg-shake128": hashes.SHAKE128(32),'),
-    ("C01", "hash-manifest-content-without-header", S + "suit/envelope.py", "        manifest = self.get_manifest().to_cbor()\n", "        manifest = cbor2.loads(self.get_manifest().to_cbor())\n"),
+    ("C01", "hash-manifest-content-without-header", S + "suit/envelope.py", "        manifest = self.get_manifest().to_cbor()\n", "        manifest = __import__(\"cbor2\").loads(self.get_manifest().to_cbor())\n"),
     ("C01", "candidate-verification-not-severable", S + "suit/envelope.py", "            suit_candidate_verification,\n            suit_install,\n            suit_install_legacy,\n        ]", "            suit_install,\n            suit_install_legacy,\n        ]"),
     ("C01", "prepare-without-severable-digests", S + "input_output.py", "        suit_obj = SuitEnvelopeTagged.from_obj(data)\n        suit_obj.update_severable_digests()\n        suit_obj.update_digest()\n        return suit_obj.to_cbor()", "        suit_obj = SuitEnvelopeTagged.from_obj(data)\n        suit_obj.update_digest()\n        return suit_obj.to_cbor()"),
     ("C01", "nested-dependency-without-severable-digests", S + "suit/envelope.py", "            suit_obj = cls.from_obj(obj)\n            suit_obj.update_severable_digests()\n", "            suit_obj = cls.from_obj(obj)\n"),
     ("C02", "swap-code-30", S + "suit/types/keys.py", '    id = 31\n    name = "suit-directive-swap"', '    id = 30\n    name = "suit-directive-swap"'),
     ("C02", "invoke-args-without-bstr", S + "suit/manifest.py", "suit_parameter_invoke_args: cbstr(SuitParameterInvokeArgs),", "suit_parameter_invoke_args: SuitParameterInvokeArgs,"),
     ("C02", "policy-bits-4-8-swapped", S + "suit/types/keys.py", '    id = 4\n    name = "suit-send-sysinfo-success"', '    id = 8\n    name = "suit-send-sysinfo-success"'),
-    ("C03", "component-part-children-swapped", S + "suit/manifest.py", "children=[SuitUUID, SuitBchar, cbstr(SuitTstr), cbstr(SuitInt), SuitBstr]", "children=[SuitUUID, SuitBchar, cbstr(SuitInt), cbstr(SuitTstr), SuitBstr]"),
+    ("C03", "component-part-bstr-before-text", S + "suit/manifest.py", "children=[SuitUUID, SuitBchar, cbstr(SuitTstr), cbstr(SuitInt), SuitBstr]", "children=[SuitUUID, SuitBchar, SuitBstr, cbstr(SuitTstr), cbstr(SuitInt)]"),
     ("C03", "image-size-to-obj-without-raw", S + "suit/manifest.py", '    def to_obj(self) -> dict:\n        """Dump SUIT representation to object."""\n        return {"raw": super().to_obj()}\n\n    @classmethod\n    def from_obj(cls, obj: dict) -> SuitUint:', '    def to_obj(self) -> dict:\n        """Dump SUIT representation to object."""\n        return super().to_obj()\n\n    @classmethod\n    def from_obj(cls, obj: dict) -> SuitUint:'),
     ("C03", "revert-F4-canonical-check", S + "suit/types/common.py", "        if cls.serialize_cbor(value) != cbstr:\n", "        if False:\n"),
     ("C04", "context-Signature", "ncs/sign_script.py", '["Signature1", cbor2.dumps(protected)', '["Signature", cbor2.dumps(protected)'),
@@ -42,11 +42,11 @@ M = [
     ("C08", "rename-a192kw", S + "suit/types/keys.py", 'name = "cose-alg-a192kw"', 'name = "cose-alg-aes192kw"'),
     ("C08", "cwt-duplicate-code", S + "suit/types/keys.py", '    id = 6\n    name = "Issued At"', '    id = 5\n    name = "Issued At"'),
     ("C09", "skip-falls-through", "ncs/sign_script.py", "                    self._skip_signing = True\n", "                    self._skip_signing = False\n"),
-    ("C09", "key-name-inherited", S + "cmd_sign.py", '        self.key_name = envelope_json.get("key-name")\n', '        self.key_name = envelope_json.get("key-name", "k_ed25519_0")\n'),
+    ("C09", "key-inherited-from-parent", S + "cmd_sign.py", '        if "key-name" not in envelope_json and not self.omit_signing:\n            raise ValueError(\n                f"key-name not found in {envelope_name}, but signing is required (omit-signing is not set)."\n            )\n        self.key_name = envelope_json.get("key-name")\n', '        self.key_name = envelope_json.get("key-name", getattr(RecursiveSigner, "_inherited_key", None))\n        RecursiveSigner._inherited_key = self.key_name\n'),
     ("C09", "alg-not-inherited", S + "cmd_sign.py", "                        self.kms_script,\n                        self.alg,\n", "                        self.kms_script,\n                        SuitSignAlgorithms.EdDSA,\n"),
     ("C09", "output-written-before-signing", S + "cmd_sign.py", '    envelope = load_envelope(kwargs["input_envelope"])\n', '    envelope = load_envelope(kwargs["input_envelope"])\n    save_envelope(kwargs["output_envelope"], envelope)\n'),
     ("C10", "padding-1-branch-removed", S + "cmd_cache_create.py", "        if padding_size == 1:\n            padding_size += self.eb_size\n            rounded_up_size += self.eb_size\n", ""),
-    ("C10", "header-switch-at-24", S + "cmd_cache_create.py", "        if padding_size <= 23:\n            header_len = 2", "        if padding_size <= 25:\n            header_len = 2"),
+    ("C10", "header-switch-at-26", S + "cmd_cache_create.py", "        if padding_size <= 23:\n            header_len = 2", "        if padding_size <= 26:\n            header_len = 2"),
     ("C10", "merge-overwrites-duplicate", S + "cmd_cache_create.py", '        if uri in self.uris:\n            raise ValueError(f"URI {uri} already exists in the cache!")\n', ""),
     ("C11", "pop-replaced-by-get", S + "cmd_cache_create.py", "cache.add_cache_slot(payload, envelope.value.pop(payload))", "cache.add_cache_slot(payload, envelope.value.get(payload))"),
     ("C11", "search-instead-of-fullmatch", S + "cmd_cache_create.py", "payloads_to_extract = [k for k in integrated if re.fullmatch(omit_payload_regex, k) is None]", "payloads_to_extract = [k for k in integrated if re.search(omit_payload_regex, k) is None]"),
@@ -57,7 +57,7 @@ M = [
     ("C13", "class-from-dns-in-storage", S + "cmd_image.py", "        cid = uuid.uuid5(vid, class_name)\n        self._assignments", "        cid = uuid.uuid5(uuid.NAMESPACE_DNS, class_name)\n        self._assignments"),
     ("C13", "duplicate-pair-check-removed", S + "cmd_image.py", "                        raise GeneratorError(\n                            \"Duplicate vid/cid combination for different roles detected in the KConfig file.\"\n                        )", "                        pass"),
     ("C14", "iv-from-plaintext", "ncs/basic_kms.py", "        nonce = os.urandom(12)\n", "        import hashlib\n        nonce = hashlib.sha256(plaintext).digest()[:12]\n"),
-    ("C14", "iv-from-seeded-prng", "ncs/basic_kms.py", "        nonce = os.urandom(12)\n", "        import random\n        nonce = random.randbytes(12)\n"),
+    ("C14", "iv-from-prng-seeded-with-pid", "ncs/basic_kms.py", "        nonce = os.urandom(12)\n", "        import random\n        nonce = random.Random(os.getpid()).randbytes(12)\n"),
     ("C14", "iv-2-random-bytes", "ncs/basic_kms.py", "        nonce = os.urandom(12)\n", "        nonce = os.urandom(2) * 6\n"),
     ("C14", "iv-from-clock", "ncs/basic_kms.py", "        nonce = os.urandom(12)\n", "        import time\n        nonce = time.time_ns().to_bytes(12, \"big\")\n"),
     ("C15", "pkcs8-traditional-mixup", S + "cmd_keys.py", '        "pkcs1": PrivateFormat.TraditionalOpenSSL,\n        "pkcs8": PrivateFormat.PKCS8,', '        "pkcs1": PrivateFormat.PKCS8,\n        "pkcs8": PrivateFormat.TraditionalOpenSSL,'),
